@@ -267,6 +267,49 @@ def compare(record, exp, dsmax=2047):
     return probs
 
 
+def cgroup_family(rep, b):
+    """%{cgroup:ARG} for every controller name and hierarchy number of this host, and for names that extend or shorten them by one byte
+    (registry call in a probe linked against the production archive; oracle: the harness's own parsing of /proc/self/cgroup)"""
+    probe = os.path.join(b["root"], "probe-plain")
+    r = subprocess.run(["gcc", "-g", "-O0", "-w", "-I" + b["src"] + "/src", "-I" + b["src"], "-o", probe, os.path.join(c.VERIF, "harness/dsprobe.c"),
+                        b["src"] + "/src/.libs/libsnoopy-no-entrypoint.a", "-lpthread", "-ldl"], capture_output=True, text=True)
+    if r.returncode:
+        raise c.MachineryError("cannot build the cgroup probe: " + r.stderr[-800:])
+    content = open("/proc/self/cgroup", "rb").read()
+    lines = [l for l in content.split(b"\n") if l]
+    names, nums = [], []
+    for l in lines:
+        parts = l.split(b":", 2)
+        if len(parts) == 3:
+            nums.append(parts[0])
+            names += [x for x in parts[1].split(b",") if x]
+    args = []
+    for n in names:
+        args += [n, n + b"x", n + b"_v2", n[:-1]] if len(n) > 1 else [n, n + b"x"]
+    args += nums + [b"99999", b"nosuchcontroller"]
+    args = [a for a in dict.fromkeys(args) if a and b" " not in a and len(a) < 60]
+    ini = os.path.join(b["root"], "probe.ini")
+    open(ini, "w").write("[snoopy]\n")
+    p_ = subprocess.run([probe, ini], input="".join("dsv cgroup 4096 %s\n" % a.decode("latin-1") for a in args), capture_output=True, text=True, timeout=60, env={"PATH": "/usr/bin:/bin"})
+    got, cur = {}, None
+    for line in p_.stdout.split("\n"):
+        if line.startswith("BEGIN "):
+            cur = line.split()[-1].encode("latin-1")
+        elif line.startswith("VAL ") and cur is not None:
+            got[cur] = bytes.fromhex(line[4:].strip())
+    def want(arg):
+        for l in lines:
+            parts = l.split(b":", 2)
+            if len(parts) == 3 and ((arg.isdigit() and parts[0] == arg) or (not arg.isdigit() and arg in parts[1].split(b","))):
+                return l
+        return b"(none)"
+    for a in args:
+        if a in got and got[a] != want(a):
+            rep.violation("cgroup:%s" % ("number" if a.isdigit() else "exact-name" if a in names else "near-name"),
+                          "%%{cgroup:%s} printed %r, /proc/self/cgroup says %r" % (a.decode("latin-1"), got[a][:100], want(a)[:100]), dict(arg=a.decode("latin-1"), cgroup_file=content.decode("latin-1")))
+    return len(args)
+
+
 def secure_exec_family(rep, b):
     probe = os.path.join(b["root"], "probe-sgid")
     r = subprocess.run(["gcc", "-g", "-O0", "-w", "-I" + b["src"] + "/src", "-I" + b["src"], "-o", probe, os.path.join(c.VERIF, "harness/dsprobe.c"),
@@ -336,6 +379,9 @@ def run(tier, seed, replay=None):
         rnd.shuffle(first); rnd.shuffle(second); rnd.shuffle(rest)
         hs = spec_ + first[:800] + second[:800] + rest[:600]
     reports = hs[0]["reports"]
+    # ancestor chains far deeper than the specification's bound (40 and 100 forks below the root process): derived cases, same contract
+    for depth_ in (40, 100):
+        hs.append(dict(steps=[{"a": "fork", "name": ["plain", "paren", "space"][k % 3]} for k in range(depth_)] + [{"a": "call"}], reports=reports))
     cases = []
     for i, h in enumerate(hs):
         top = [b"top-plain", b"t(1) op)", b"top sp", b" both ends ", b"\ttab:colon"][i % 5]
@@ -417,7 +463,7 @@ def run(tier, seed, replay=None):
     nontriv += n3
     # secure-execution mode: the same data sources in a process that was started from a set-group-ID binary (AT_SECURE: libc's secure_getenv()
     # hides the environment there, getenv() does not). The registry is called directly in a set-gid copy of the probe linked against the production archive.
-    nsec = secure_exec_family(rep, b)
+    nsec = secure_exec_family(rep, b) + cgroup_family(rep, b)
     total += nsec
     nontriv += nsec
     rep.cov["traces_validated_against_impl"] = total
